@@ -72,7 +72,7 @@ structure StoreOK (st : Store) : Prop where
 inductive Wire (st : Store) : OutMsg → Prop
   | stored {m : OutMsg} (h : (m.seq, m) ∈ st.msgs) : Wire st m
   | resent {m : OutMsg} (h : (m.seq, m) ∈ st.msgs) (happ : isAdminKind m.kind = false) : Wire st (resent m)
-  | gap (b e : Int) (hbe : b < e) (he : e ≤ st.sender) (hb : inInt64 b)
+  | gap (b e : Int) (hbe : b < e) (he : e ≤ st.sender) (hb : -9223372036854775808 ≤ b)
       (hadm : ∀ p ∈ st.msgs, b ≤ p.1 → p.1 < e → isAdminKind p.2.kind = true) : Wire st (gapFill b e)
 
 /-- `st'` is `st` with newer messages filed on top (all administrative when `adm`) -/
@@ -175,8 +175,8 @@ theorem wire_facts {P : Store} (hP : StoreOK P) (hb : P.sender ≤ maxSeq) {m : 
     · exact ⟨hv.1, by simp, by simp⟩
     · exact ⟨by simp, by simp, by simp⟩
     · exact ⟨by simp, by simp, by simp⟩
-  | gap b e hbe he hb hadm =>
-    refine ⟨(show "4" ≠ "" by decide), ?_, hb⟩
+  | gap b e hbe he hb' hadm =>
+    refine ⟨(show "4" ≠ "" by decide), ?_, (show inInt64 b by unfold inInt64; unfold maxSeq at hb; omega)⟩
     intro p hp
     simp only [gapFill, List.mem_cons, List.not_mem_nil, or_false] at hp
     rcases hp with rfl | rfl | rfl | rfl
